@@ -49,6 +49,7 @@ def conservation_problems(snap, out, n):
     return bad
 
 
+@core.guarded(lambda lst, *a: dict(kind='cluster', calls=[list(x) for x in lst], blur=B))
 def check_cluster(lst, acc):
     n = len(lst)
     inp = [[t, c, s, e, 100 + i, 0, 1, 7] for i, (t, c, s, e) in enumerate(lst)]
@@ -124,6 +125,7 @@ class _Map:
 DELTAS = [0] + [s * v for v in (99, 100, 101, 1999, 2000, 2001, 99999, 100000, 100001) for s in (1, -1)]
 
 
+@core.guarded(lambda which, bp, d1, d2, rev, *a: dict(kind='finder', finder=which, breakpoint=bp, ref_delta=[d1, d2], reverse=rev))
 def check_finder(which, bp, d1, d2, rev, acc):
     gq = 150000
     rpos = [1000, 1000 + gq + d1, 1000 + 2 * gq + d1 + d2]
